@@ -22,7 +22,8 @@ func main() {
 	cmd := os.Args[1]
 	fs := flag.NewFlagSet(cmd, flag.ExitOnError)
 	repo := fs.String("repo", "/repo", "repository root")
-	verif := fs.String("verif", "/verif", "verification root")
+	cwd, _ := os.Getwd()
+	verif := fs.String("verif", cwd, "verification root (default: current directory)")
 	tier := fs.String("tier", envOr("VERIF_TIER", "quick"), "quick|thorough")
 	workers := fs.Int("workers", 16, "parallel workers")
 	solver := fs.String("solver", "z3", "z3|z3-new|cvc5")
